@@ -236,7 +236,19 @@ pub fn answer(w: &mut World, uri: &str, body: &[u8], json: &Value, kind: ReqKind
             w.n_pings += 1;
             w.script.pings.get(k).cloned().unwrap_or_else(RespSpec::ack)
         }
-        ReqKind::Other => RespSpec::Transport,
+        ReqKind::Other => {
+            // a request naming no app (e.g. the report after an offer for an unknown app only): inside a check's
+            // session it takes the next scripted report outcome, anything else is not answered
+            let s = session.clone().unwrap_or_default();
+            match w.sessions.iter().position(|x| *x == s) {
+                Some(ci) if json.get("request").and_then(|r| r.get("app")).and_then(|a| a.as_array()).map(|a| a.is_empty()).unwrap_or(false) => {
+                    let k = w.reports_seen[ci];
+                    w.reports_seen[ci] += 1;
+                    w.script.checks.get(ci).and_then(|c| c.reports.get(k).cloned()).unwrap_or_else(RespSpec::ack)
+                }
+                _ => RespSpec::Transport,
+            }
+        }
     };
     let reply = match spec {
         RespSpec::Transport => return Delivered::Transport,
